@@ -121,13 +121,13 @@ def run_script(script):
             return 'pending'
         if ar.exception is not None:
             ex = ar.exception
-            return ['err', ex.code if isinstance(ex, E) else -1]
+            return ['err', ex.code if isinstance(ex, E) else 999999]
         v = ar.value
         if isinstance(v, list):
             return ['vals', [x if isinstance(x, int) else None for x in v]]
         if isinstance(v, int) and not isinstance(v, bool):
             return ['val', v]
-        return ['val', -1]
+        return ['val', 999999]     # not a plain value of the script (e.g. a result object): judged wrong by the spec
 
     def complete(ar, out):
         if out[0] in ('ok', 'plain'):
